@@ -11,7 +11,8 @@ class C20(Check):
     corr_imports = ["Ecat.Fmmu", "Corr.C20"]
     technique = "Coq proof (invariant over all map/unmap sequences, induction on the operation list) + differential correspondence with Terminal.map_fmmu"
     trusted = ["Python list slicing/index/negative-index semantics as modelled in Ecat/Fmmu.v (exercised by the correspondence)"]
-    assumptions = ["the register writes inside map_fmmu succeed (failure/cancellation paths are covered by C24)"]
+    assumptions = ["the register writes inside map_fmmu succeed (failure/cancellation paths are covered by C24)",
+                   "code between two awaits is atomic (asyncio): choosing and booking a slot are one step of the model"]
 
     # case: {"n": fmmus, "ops": [("map", write, logical) | ("unmap", k)]}
     def corpus(self):
@@ -48,9 +49,123 @@ class C20(Check):
                     ops.append(("map", rng.random() < 0.5, rng.choice([0, 0, 0x1000 * (i + 1) + rng.randrange(16)])))
                     live += 1
             out.append({"n": n, "ops": ops})
+        # mappings made by concurrent tasks: every bus write of map_fmmu takes as long as the script says
+        for _ in range(150 if self.tier == "quick" else 2000):
+            out.append(self.conc_case(rng))
         return out
 
+    @staticmethod
+    def conc_case(rng):
+        """script of ("begin", id, write, logical) / ("finish", id) / ("unbegin", id) / ("unfinish", id): a mapping task starts and runs to its first
+        bus write; that write completes; the task starts to give the mapping up (second bus write); that write completes"""
+        n = rng.choice([1, 2, 2, 3, 4])
+        script, state, nid = [], {}, 0
+        for _ in range(rng.randint(3, 16)):
+            moves = [("new",)] if nid < 6 else []
+            for i, stt in state.items():
+                if stt == "begun":
+                    moves += [("finish", i)] * 2
+                elif stt == "mapped":
+                    moves.append(("unbegin", i))
+                elif stt == "unbegun":
+                    moves += [("unfinish", i)] * 2
+            m = rng.choice(moves + [("new",)] * (2 if nid < 6 else 0)) if moves else None
+            if m is None:
+                break
+            if m[0] == "new":
+                script.append(("begin", nid, rng.random() < 0.5, rng.choice([0, 0x1000 * (nid + 1), 0x1000 * (nid + 1) + 7])))
+                state[nid] = "begun"
+                nid += 1
+            else:
+                script.append(m)
+                state[m[1]] = {"finish": "mapped", "unbegin": "unbegun", "unfinish": "done"}[m[0]]
+        return {"n": n, "kind": "conc", "script": script, "ops": []}
+
+    def run_conc(self, case):
+        from ebpfcat.ethercat import Terminal
+        gates, first_reg = {}, {}
+
+        class FakeEc:
+            async def roundtrip(self, cmd, pos, offset, *args, data=None, idx=0):
+                me = asyncio.current_task().get_name()
+                first_reg.setdefault(me, offset)
+                fut = asyncio.get_event_loop().create_future()
+                gates.setdefault(me, []).append(fut)
+                await fut
+                return ()
+
+        async def go():
+            t = Terminal(FakeEc())
+            t.position = 1001
+            t.fmmu_used = [None] * case["n"]
+            t.pdo_out_off, t.pdo_out_sz, t.pdo_in_off, t.pdo_in_sz = 0x1100, 4, 0x1180, 6
+            tasks, results, leave, rec_of, failed = {}, {}, {}, {}, set()
+            mops, recs, live = [], [], []
+
+            async def user(i, write, logical):
+                cm = t.map_fmmu(logical, write)
+                results[i] = await cm.__aenter__()
+                await leave[i].wait()
+                await cm.__aexit__(None, None, None)
+
+            async def settle():
+                for _ in range(4):
+                    await asyncio.sleep(0)
+
+            def release(i):
+                g = gates.get(f"u{i}", [])
+                for f in g:
+                    if not f.done():
+                        f.set_result(None)
+                        return True
+                return False
+            for step in case["script"]:
+                if step[0] == "begin":
+                    _, i, write, logical = step
+                    leave[i] = asyncio.Event()
+                    tasks[i] = asyncio.ensure_future(user(i, write, logical))
+                    tasks[i].set_name(f"u{i}")
+                    await settle()
+                    mops.append(("map", write, logical))
+                    if tasks[i].done():
+                        e = tasks[i].exception()
+                        failed.add(i)
+                        recs.append([Err(4, "no free fmmu") if isinstance(e, ValueError) else Err(5, f"{type(e).__name__}: {e}"), list(t.fmmu_used)])
+                    else:
+                        rec_of[i] = len(recs)
+                        recs.append([None, list(t.fmmu_used)])
+                        live.append(i)
+                elif step[1] in failed:
+                    continue
+                elif step[0] == "finish":
+                    release(step[1])
+                    await settle()
+                    recs[rec_of[step[1]]][0] = results.get(step[1], Err(5, "the mapping did not complete after its bus write"))
+                elif step[0] == "unbegin":
+                    leave[step[1]].set()
+                    await settle()
+                elif step[0] == "unfinish":
+                    release(step[1])
+                    await settle()
+                    mops.append(("unmap", live.index(step[1])))
+                    live.remove(step[1])
+                    recs.append([0, list(t.fmmu_used)])
+            # learn the slot of every mapping whose first write is still outstanding
+            for i, k in rec_of.items():
+                if recs[k][0] is None:
+                    release(i)
+                    await settle()
+                    recs[k][0] = results.get(i, Err(5, "the mapping did not complete after its bus write"))
+            for tk in tasks.values():
+                tk.cancel()
+            case["_regs"] = [(results[i], first_reg.get(f"u{i}")) for i in results]
+            case["_mops"] = mops
+            return recs
+        return asyncio.run(go())
+
     def run_impl(self, case):
+        if case.get("kind") == "conc":
+            return self.run_conc(case)
         from ebpfcat.ethercat import Terminal
 
         writes = []
@@ -91,7 +206,9 @@ class C20(Check):
         return asyncio.run(go())
 
     def model_term(self, case):
-        ops = [f"Map {cbool(o[1])} {cz(o[2])}" if o[0] == "map" else f"Unmap {cnat(o[1])}" for o in case["ops"]]
+        # concurrent tasks: the model sees a mapping when its task starts (slot choice and booking are one step) and an
+        # unmapping when its last bus write has completed
+        ops = [f"Map {cbool(o[1])} {cz(o[2])}" if o[0] == "map" else f"Unmap {cnat(o[1])}" for o in case.get("_mops", case["ops"])]
         return f"(run {cnat(case['n'])} {clist(ops)})"
 
     def holds(self, case, o):
@@ -100,7 +217,7 @@ class C20(Check):
         n = case["n"]
         live = []   # (slot, logical)
         prev = [None] * n
-        for op, (r, tbl) in zip(case["ops"], o):
+        for op, (r, tbl) in zip(case.get("_mops", case["ops"]), o):
             if op[0] == "map":
                 if isinstance(r, Err):
                     if r.code != 4:
@@ -133,7 +250,7 @@ class C20(Check):
         return True
 
     def nontrivial(self, case, o):
-        return sum(1 for op in case["ops"] if op[0] == "map") >= 2
+        return sum(1 for op in case.get("_mops", case["ops"]) if op[0] == "map") >= 2
 
     def search_cases(self):
         out = []
@@ -146,22 +263,28 @@ class C20(Check):
 
     def rule(self):
         return ("map(write/read)/unmap(k-th live) sequences of length 1-12 on terminals with 1-4 FMMUs (thorough: all sequences up to length 5 exhaustively); "
-                "non-trivial = at least two map operations; distinct by content")
+                "plus scripts of up to 6 concurrent mapping tasks whose bus writes complete when the script says (a task starts while the configuration write "
+                "of another is outstanding, gives its mapping up while others start); non-trivial = at least two map operations; distinct by content")
 
     def distribution(self, cases, observed):
         d = {"maps": 0, "unmaps": 0, "failed_maps": 0}
         for c, o in zip(cases, observed):
             if isinstance(o, Err):
                 continue
-            for op, (r, _) in zip(c["ops"], o):
+            d["concurrent"] = d.get("concurrent", 0) + (c.get("kind") == "conc")
+            for op, (r, _) in zip(c.get("_mops", c["ops"]), o):
                 d["maps" if op[0] == "map" else "unmaps"] += 1
                 d["failed_maps"] += isinstance(r, Err)
         return d
 
     def describe(self, case):
+        if case.get("kind") == "conc":
+            return {"n": case["n"], "kind": "conc", "script": [list(o) for o in case["script"]], "ops": []}
         return {"n": case["n"], "ops": [list(o) for o in case["ops"]]}
 
     def case_from_json(self, w):
+        if w.get("kind") == "conc":
+            return {"n": w["n"], "kind": "conc", "script": [tuple(o) for o in w["script"]], "ops": []}
         return {"n": w["n"], "ops": [tuple(o) for o in w["ops"]]}
 
 
